@@ -6,7 +6,7 @@ from fractions import Fraction
 import numpy as np
 
 from ..common import Ctx, Tokens, close, driver_batch, f2b, fvec
-from . import c04_ext, c04_r3, c04_r4
+from . import c04_ext, c04_r3, c04_r4, c04_r5
 
 LEVEL = "proof"
 LEVEL_TEXT = (
@@ -89,7 +89,11 @@ RULE = (
     "Identity) x every half-infinite rule and hand-built grids on (lo, inf) x (rmin, rmax) below 1 / up to 1 / straddling 1 / from 1 / above 1 / "
     "(0.9, 1.1) / (1e-3, 1e3) x b in {0.5, 1, 4, left open}; half-infinite rules with 21 ... 81 nodes (nodes up to 1e300); one- and two-node grids through "
     "every class and the size guard of Hyperbolic at b (n - 1) = {0.5, 1/1.01, 1, 1.01, 2}: all against the model; the oracle asserts on every one of them, "
-    "without a reference map, that an accepted grid has a nan-free ordered domain containing every new node (the two listed nan-domain findings under their keys)."
+    "without a reference map, that an accepted grid has a nan-free ordered domain containing every new node (the two listed nan-domain findings under their keys). "
+    "Round 5 (c04_r5.py): explicit parameters on grids with nodes at b/2, b (1 -+ 1e-9), b, 1.01 b, 2 b, 100 b, at and next to the ends of [-1, 1], of the "
+    "codomain of every inverse and next to the pole of Hyperbolic; one transform object (b open / given, finite, Identity, Hyperbolic) on two and three different "
+    "grids in sequence, small first and large first; grids of 1025 nodes (oracle: 4097 / 20001 / 65537, thorough 524289). The oracle judges all of them, and a sample "
+    "of the round-2 scripts, against the maps as documented (closed forms written down in the harness, nothing of the library evaluated for the reference)."
 )
 TRUSTED_BASE = [
     "Lean 4.33 kernel; Mathlib; axioms propext, Classical.choice, Quot.sound only (audited per theorem)",
@@ -586,7 +590,7 @@ def _c04_check(script, rt, OneDGrid, HP, hp_call, mpmath, slack, max_nodes):
             out.append(("size", ci, where + ": %d nodes in, %d points / %d weights out" % (n, h.size, len(h.weights))))
             continue
         u = 6e-8 if g.points.dtype == np.float32 else 2.3e-16
-        rt_p, rt_w = max(1e-9, 64 * u), max(1e-7, 256 * u)
+        rt_p, rt_w = max(1e-9, 64 * u), max(1e-7, 4096 * u)      # float32 nodes: 2.5e-4 (the flat end of an inverse amplifies the single-precision rounding)
         idx = list(range(n)) if n <= max_nodes else sorted(set(int(round(k * (n - 1) / (max_nodes - 1))) for k in range(max_nodes)))
         seen = set()
         for i in idx:
@@ -1759,6 +1763,8 @@ def corr(ctx: Ctx):  # noqa: F811
         c04_r3.corr_r3(ctx)
     with part(ctx, "round4", "corr"):
         c04_r4.corr_r4(ctx)
+    with part(ctx, "round5", "corr"):
+        c04_r5.corr_r5(ctx)
     reraise_pending("corr")
 
 
@@ -1771,6 +1777,8 @@ def oracle(ctx: Ctx, budget: str):  # noqa: F811
         c04_r3.oracle_r3(ctx, budget)
     with part(ctx, "round4"):
         c04_r4.oracle_r4(ctx, budget)
+    with part(ctx, "round5"):
+        c04_r5.oracle_r5(ctx, budget)
     reraise_pending("oracle")
 
 
@@ -1781,4 +1789,6 @@ def oracle_at(ctx: Ctx, failure):  # noqa: F811
         c04_r3.oracle_at_r3(ctx, failure)
     with part(ctx, "round4", "oracle_at"):
         c04_r4.oracle_at_r4(ctx, failure)
+    with part(ctx, "round5", "oracle_at"):
+        c04_r5.oracle_at_r5(ctx, failure)
     reraise_pending("oracle_at")
